@@ -411,7 +411,7 @@ def initialize():
             f_kind="C_LONG",
             f_module=dict(iso_c_binding=["C_LONG"]),
             PY_format="k",
-            PY_ctor="PyInt_FromLong({ctor_expr})",
+            PY_ctor="PyLong_FromUnsignedLong({ctor_expr})",
             PY_get="PyInt_AsLong({py_var})",
             PYN_typenum="NPY_LONG",
             LUA_type="LUA_TNUMBER",
@@ -608,7 +608,7 @@ def initialize():
             f_kind="C_INT64_T",
             f_module=dict(iso_c_binding=["C_INT64_T"]),
             PY_format="K",
-            PY_ctor="PyInt_FromLong({ctor_expr})",
+            PY_ctor="PyLong_FromUnsignedLongLong({ctor_expr})",
             PY_get="PyInt_AsLong({py_var})",
             PYN_typenum="NPY_UINT64",
             LUA_type="LUA_TNUMBER",
